@@ -103,7 +103,10 @@ func C04(p *load.Program, run *report.Run) {
 			continue
 		}
 		run.Count("garbler-roles", 1)
+		helperMemo := map[*ssa.Function]bool{}
+		var helperDeclassifies func(callee *ssa.Function) bool
 		ta := &flow.Taint{Fn: f,
+			CleanLen:  true, // the secrets are label contents; how many wires there are is public
 			KeepClean: func(t types.Type) bool { return t.String() == "error" },
 			PhiClean:  oneOfTwo,
 			Source: func(ins ssa.Instruction) []ssa.Value {
@@ -145,8 +148,43 @@ func C04(p *load.Program, run *report.Run) {
 					"(" + load.Module + "/ot.Label).Equal", load.Module + "/ot.EncryptCOCiphertexts":
 					return true
 				}
-				return false
+				// a helper of the module that itself lets wires reach its results only through those
+				// declassifiers (a decode loop moved into a function) declassifies like them
+				return helperDeclassifies(callee)
 			},
+		}
+		helperDeclassifies = func(callee *ssa.Function) bool {
+			if v, ok := helperMemo[callee]; ok {
+				return v
+			}
+			helperMemo[callee] = false // while being computed, and for recursion
+			if callee.Blocks == nil || !load.InModule(callee) || len(helperMemo) > 200 {
+				return false
+			}
+			var seeds []ssa.Value
+			for _, prm := range callee.Params {
+				if isWireType(prm.Type()) {
+					seeds = append(seeds, prm)
+				}
+			}
+			if len(seeds) == 0 {
+				return false
+			}
+			st := &flow.Taint{Fn: callee, KeepClean: ta.KeepClean, PhiClean: ta.PhiClean, Sanitizer: ta.Sanitizer, Seed: seeds,
+				Source: func(ssa.Instruction) []ssa.Value { return nil }}
+			st.Run()
+			// it must contain a declassifying call, and no non-error result may carry the wires
+			has := false
+			for _, b := range callee.Blocks {
+				for _, ins := range b.Instrs {
+					if c, ok := ins.(ssa.CallInstruction); ok && ta.Sanitizer(c) {
+						has = true
+					}
+				}
+			}
+			clean := has && len(st.TaintedReturns()) == 0
+			helperMemo[callee] = clean
+			return clean
 		}
 		ta.Run()
 		nsinks, bad := 0, 0
